@@ -344,13 +344,16 @@ func (c *Ctx) ord2() {
 	} else {
 		step.pass()
 	}
+	entrySeg := true
 	isInd := func(v ssa.Value) bool {
 		v = strip(v)
 		if v == ind && ind != nil {
 			return true
 		}
 		if pr, ok := v.(*ssa.Parameter); ok && pr == offsetParam && offsetParam != nil {
-			return true // phi resolved on the entry edge
+			// the phi resolved on the entry edge; in a later iteration the
+			// offset is not the sequence number at hand
+			return entrySeg
 		}
 		if bo, ok := v.(*ssa.BinOp); ok && bo.Op == token.ADD && ind != nil {
 			return strip(bo.X) == ind
@@ -359,6 +362,7 @@ func (c *Ctx) ord2() {
 	}
 	for _, p := range c.Paths("ORD-2", rs) {
 		last := len(p.Events) - 1
+		entrySeg = p.Start == nil || len(rs.Blocks) == 0 || p.Start == rs.Blocks[0]
 		var iLoad, iWrite, iDupStore = -1, -1, -1
 		var ltSubmit, isPublish *bool
 		loopCond := 0 // 1 true, -1 false
@@ -366,6 +370,12 @@ func (c *Ctx) ord2() {
 			e := &p.Events[i]
 			switch e.Kind {
 			case pathx.KAssume:
+				// the submit count is compared with the sequence number of this iteration only
+				if cm, ok := cmpOf(e.Val, e.Truth); ok && c.inRegion(rs, e) {
+					if (roleKey(strip(cm.Y)) == "seq.submitN" && !isInd(cm.X)) || (roleKey(strip(cm.X)) == "seq.submitN" && !isInd(cm.Y)) {
+						subm.fail(p, i, "the submit count is compared with %s, which is not the sequence number of the packet at hand: whether a packet is a retransmission (DUP) and whether it counts as submitted are decided per packet", Expr(strip(cm.X))+" / "+Expr(strip(cm.Y)))
+					}
+				}
 				if cm, ok := cmpOf(e.Val, e.Truth); ok && isInd(cm.X) && (cm.Op == token.LSS || cm.Op == token.GEQ) {
 					t := cm.Op == token.LSS // the path established seqNo < Y (true) or seqNo >= Y (false)
 					switch roleKey(strip(cm.Y)) {
